@@ -925,12 +925,18 @@ func zeroedFields(fd *ast.FuncDecl) ([]string, error) {
 // structFieldTypes: struct type -> field -> declared type, of package memory
 var structFieldTypes = map[string]map[string]string{}
 
+// namedBasic: `type X = Y` / `type X Y` with Y an identifier, of package memory (to see through a counter type alias)
+var namedBasic = map[string]string{}
+
 func collectStructFields(files map[string]*ast.File) {
 	for _, f := range files {
 		ast.Inspect(f, func(n ast.Node) bool {
 			ts, ok := n.(*ast.TypeSpec)
 			if !ok {
 				return true
+			}
+			if id, isIdent := ts.Type.(*ast.Ident); isIdent {
+				namedBasic[ts.Name.Name] = id.Name
 			}
 			st, ok := ts.Type.(*ast.StructType)
 			if !ok {
@@ -939,7 +945,11 @@ func collectStructFields(files map[string]*ast.File) {
 			m := map[string]string{}
 			for _, fl := range st.Fields.List {
 				for _, nm := range fl.Names {
-					m[nm.Name] = exprString(fl.Type)
+					if at, isArr := fl.Type.(*ast.ArrayType); isArr && at.Len == nil {
+						m[nm.Name] = "[]" + exprString(at.Elt)
+					} else {
+						m[nm.Name] = exprString(fl.Type)
+					}
 				}
 			}
 			structFieldTypes[ts.Name.Name] = m
@@ -1022,6 +1032,9 @@ func doMemory(repo, outDir string) {
 			continue
 		}
 		fields, err := zeroedFields(fd)
+		if err == nil && len(fields) == 0 {
+			err = fmt.Errorf("%s.ClearStatistics: no zeroed counter recognised", t)
+		}
 		if err == nil {
 			for _, f := range fields {
 				if strings.HasPrefix(f, "->") && !strings.HasPrefix(f, "-><Memory>.") {
@@ -1036,6 +1049,34 @@ func doMemory(repo, outDir string) {
 		}
 		fmt.Fprintf(&b, "def %s_ClearStatistics : List String := %s\n\n", t, leanStrList(fields))
 	}
+
+	// declared element type of every counter field (the fields ClearStatistics zeroes), type names resolved
+	b.WriteString("/-- declared type of every access counter field (the fields zeroed by ClearStatistics): (memory type, field, type) -/\n")
+	ctParts := []string{}
+	for _, t := range types {
+		fd, ok := methods[key{t, "ClearStatistics"}]
+		if !ok {
+			continue
+		}
+		fields, err := zeroedFields(fd)
+		if err != nil {
+			continue
+		}
+		for _, f := range fields {
+			if strings.HasPrefix(f, "->") {
+				continue
+			}
+			ty := structFieldTypes[t][f]
+			for i := 0; i < 4; i++ {
+				el := strings.TrimPrefix(ty, "[]")
+				if u, ok := namedBasic[el]; ok {
+					ty = strings.TrimSuffix(ty, el) + u
+				}
+			}
+			ctParts = append(ctParts, fmt.Sprintf("(%q, %q, %q)", t, f, ty))
+		}
+	}
+	fmt.Fprintf(&b, "def counterFieldTypes : List (String × String × String) := [%s]\n\n", strings.Join(ctParts, ", "))
 
 	// allocation lengths: `field: make([]T, len)` in composite literals, also through a local `x := make(...)`
 	b.WriteString("/-- length expression of every slice field allocated with make in package memory (type, field, expression) -/\n")
@@ -1100,6 +1141,20 @@ func doMemory(repo, outDir string) {
 	parts := []string{}
 	for _, a := range allocs {
 		parts = append(parts, fmt.Sprintf("(%q, %q, %q)", a[0], a[1], a[2]))
+	}
+	// every memory model allocates its buffers with make in a composite literal (or through a local): a model for which
+	// nothing was recognised (e.g. a helper returning several slices at once) is a shape this reader does not follow
+	for _, t := range []string{"LinearMemory", "X16Memory", "NeoGeoRam", "F256RevBMemory"} {
+		have := 0
+		for _, a := range allocs {
+			if a[0] == t {
+				have++
+			}
+		}
+		if have < 3 {
+			fail("memory.alloc", fmt.Sprintf("%s: allocation lengths not recognised", t))
+			okAll = false
+		}
 	}
 	fmt.Fprintf(&b, "def allocLens : List (String × String × String) := [%s]\n\n", strings.Join(parts, ", "))
 
